@@ -47,6 +47,7 @@ var Prop = &engine.Prop{
 		{Name: "mono-seq", Quick: 24, Thorough: 1000, Repeat: 5, Fn: monoSeqCase},
 		{Name: "mono-wrap", Quick: 48, Thorough: 2000, Repeat: 5, Fn: monoWrapCase},
 		{Name: "mono-conc", Quick: 48, Thorough: 2000, Repeat: 20, Fn: monoConcCase},
+		{Name: "mono-wrap-conc", Quick: 48, Thorough: 2000, Repeat: 5, Fn: monoWrapConcCase},
 		{Name: "nano-seq", Quick: 1200, Thorough: 54000, Fn: nanoSeqCase},
 		{Name: "nano-conc", Quick: 72, Thorough: 3200, Repeat: 20, Fn: nanoConcCase},
 	},
